@@ -74,6 +74,7 @@ type States struct {
 	handoverYBroker  *util.Locked[*HandoverYBroker]
 	networkID        base.NetworkID
 	stateLock        sync.RWMutex
+	switchLock       sync.Mutex
 }
 
 func NewStates(networkID base.NetworkID, local base.LocalNode, args *StatesArgs) (*States, error) {
@@ -372,6 +373,13 @@ end:
 }
 
 func (st *States) switchState(sctx switchContext) error {
+	// NOTE Hold() switches state from the goroutine of it's caller; checking
+	// the switch context with the current handler, exit and enter, and the
+	// switched callback should not interleave with the switching of the states
+	// loop.
+	st.switchLock.Lock()
+	defer st.switchLock.Unlock()
+
 	e := util.StringError("switch state")
 
 	current := st.current()
